@@ -10,6 +10,7 @@
 import Ctrmml.Model.MdsConv
 import Ctrmml.Spec.SeqWf
 import Ctrmml.Proofs.CodecBreak
+import Ctrmml.Proofs.CodecWalkLoops
 namespace Ctrmml.C03
 open Ctrmml Ctrmml.Mds Ctrmml.Seq Tables
 
@@ -175,6 +176,47 @@ theorem C03_codec_never_reads_outside_segno_partial (nS nM : Nat) (a b : List ME
           [Stop.finished, Stop.fuel, Stop.tooManyTicks]) := by
   obtain ⟨bytes, h1, h2⟩ := codec_roundtrip_segno nS nM a b ha hb jarg
   exact ⟨bytes, h1, fun hlen base mj maxTicks fuel ln lr => (h2 hlen base mj ln lr).safe maxTicks fuel⟩
+
+/-- **The stream is terminated and well-formed: the walker accepts it** — linear tracks ending in
+`FINISH`: `SeqWf.walk` (with at least one unit of fuel per byte, as `checkAll` gives it) decodes
+instruction after instruction inside the stream and stops at the terminator, which is the last byte. -/
+theorem C03_stream_terminated_partial (nS nM : Nat) (es : List MEv) (hv : ∀ ev ∈ es, linEv ev = true) (farg : Nat) :
+    ∃ bytes pre, convertTrack nS nM (es ++ [⟨mds_FINISH, farg⟩]) = .ok bytes ∧ bytes = pre ++ [mds_FINISH] ∧
+      ∀ fuel, fuel ≥ bytes.length → SeqWf.walk bytes 0 fuel { pc := 0 } = .ok bytes.length := by
+  obtain ⟨bytes, h1, h2⟩ := walk_accepts_linear nS nM es hv farg
+  obtain ⟨pre, ops, hb, hl⟩ := C03_stream_ends_with_terminator nS nM es mds_FINISH farg bytes (.inl rfl) h1
+  simp only [if_true] at hl
+  have : ops = [] := List.eq_nil_of_length_eq_zero hl
+  subst this
+  exact ⟨bytes, pre, h1, hb, h2⟩
+
+/-- the same for looping tracks `a ++ [SEGNO] ++ b ++ [JUMP]` (`a`, `b` linear, stream < 64 KiB): the
+walker accepts, in particular the loop-back jump lands on an instruction boundary at loop depth 0 -/
+theorem C03_stream_terminated_segno_partial (nS nM : Nat) (a b : List MEv) (ha : ∀ ev ∈ a, linEv ev = true)
+    (hb : ∀ ev ∈ b, linEv ev = true) (jarg : Nat) :
+    ∃ bytes pre hi lo, convertTrack nS nM (a ++ [⟨mds_SEGNO, 0⟩] ++ b ++ [⟨mds_JUMP, jarg⟩]) = .ok bytes ∧
+      bytes = pre ++ [mds_JUMP, hi, lo] ∧
+      (bytes.length < 65536 →
+        ∀ fuel, fuel ≥ bytes.length → SeqWf.walk bytes 0 fuel { pc := 0 } = .ok bytes.length) := by
+  obtain ⟨bytes, h1, h2⟩ := walk_accepts_segno nS nM a b ha hb jarg
+  obtain ⟨pre, ops, hbt, hl⟩ := C03_stream_ends_with_terminator nS nM (a ++ [⟨mds_SEGNO, 0⟩] ++ b) mds_JUMP jarg bytes
+    (.inr (.inl rfl)) h1
+  have h2' : ops.length = 2 := by
+    have n1 : ¬ mds_JUMP = mds_FINISH := by decide
+    simpa [n1] using hl
+  match ops, h2' with
+  | [hi, lo], _ => exact ⟨bytes, pre, hi, lo, h1, hbt, h2⟩
+
+/-- the same for counted loops with and without break, nested (leaves linear, `FINISH` last, stream
+< 64 KiB): loop starts and ends are balanced and every back-patched break offset lands on the
+instruction after its loop end (that is what the walker checks) -/
+theorem C03_stream_terminated_loops_partial (nS nM : Nat) (ts : List Node) (hl : linL ts = true) (farg : Nat) :
+    ∃ e', encL nS nM ts {} = .ok e' ∧
+      (e'.out.length + 1 < 65536 →
+        convertTrack nS nM (flatL ts ++ [⟨mds_FINISH, farg⟩]) = .ok (e'.out ++ [mds_FINISH]) ∧
+        ∀ fuel, fuel ≥ e'.out.length + 1 →
+          SeqWf.walk (e'.out ++ [mds_FINISH]) 0 fuel { pc := 0 } = .ok (e'.out.length + 1)) :=
+  walk_accepts_loops nS nM ts hl farg
 
 example : ∃ bytes, convertTrack 0 0 ([⟨0xa6, 24⟩] ++ [⟨mds_JUMP, 0⟩]) = .ok bytes := ⟨_, rfl⟩
 example : linL [.loop [.ev ⟨0xa6, 24⟩] 2] = true ∧ noBreakL [.loop [.ev ⟨0xa6, 24⟩] 2] = true := by decide
